@@ -532,18 +532,28 @@ def _run_energy(case):
     def energy(u, v):
         return 0.5 * v @ M @ v + 0.5 * u @ K @ u
 
+    aK, aM = np.abs(K), np.abs(M)
+
+    def energy_abs(u, v):
+        # bound of the round-off of `energy`: the quadratic forms of the absolute values (the rigid part of u, which carries
+        # no strain energy, grows like v*t in free motion and dominates the cancellation error)
+        return 0.5 * np.abs(v) @ aM @ np.abs(v) + 0.5 * np.abs(u) @ aK @ np.abs(u)
+
     E0 = energy(u0, v0)
     Es = [E0]
+    Ea = [energy_abs(u0, v0)]
     for _ in range(case["nsteps"]):
         simu.Solve()
         Es.append(energy(simu._Get_u_n(pt), simu._Get_v_n(pt)))
+        Ea.append(energy_abs(simu._Get_u_n(pt), simu._Get_v_n(pt)))
     Es = np.array(Es)
+    Ea = np.array(Ea)
     v = []
     key = dict(algo=algo, elemType=case["elemType"], init=case["init"])
     if not np.all(np.isfinite(Es)):
         v.append(viol("energy_nonfinite", f"{algo} dt={dt}: energy not finite", **key))
     elif algo in ("newmark_avg", "midpoint"):
-        drift = np.max(np.abs(Es - E0)) / E0
+        drift = np.max(np.maximum(np.abs(Es - E0) - 1e-11 * Ea, 0.0)) / E0
         # conditioning: each step solves with A = K + 4/dt^2 M ; allow round-off growth ~ cond * eps per step
         A = K + 4 / dt ** 2 * M
         cond = np.linalg.cond(A)
@@ -557,7 +567,8 @@ def _run_energy(case):
         tol = max(1e-12, 2000 * cond * 2.3e-16)
         # absolute floor: the energy of the (energy-free) rigid part of u is only known to ~eps |K| |u|^2
         # (round-off of the energy itself: ~ n * eps * |K| |u|^2 with the O(1) rigid part of u  ->  1e-11 E0)
-        inc = np.max((np.diff(Es) - 1e-11 * E0) / np.maximum(Es[:-1], 1e-11 * E0))
+        floor = 1e-11 * E0 + 1e-11 * np.maximum(Ea[1:], Ea[:-1])
+        inc = np.max((np.diff(Es) - floor) / np.maximum(Es[:-1], 1e-11 * E0))
         if inc > tol:
             v.append(viol("energy_increase", f"euler_implicit dt={dt}: energy increased by {inc:.3e} (relative to the energy before the step; tol {tol:.1e})", **key))
     return {"violations": v, "fingerprint": fp(algo, dt, case["init"], case["elemType"], Es[-1] / E0), "nontrivial": True,
